@@ -99,17 +99,16 @@ impl Tree {
 	pub fn verif_vlog_pointers(&self) -> Result<VlogWalk> {
 		let inner = &self.core.inner;
 		let mut w = VlogWalk::default();
-		let tables: Vec<(u8, std::sync::Arc<crate::sstable::table::Table>)> = {
-			let m = inner.level_manifest.read()?;
-			w.min_oldest = m.min_oldest_vlog_file_id();
-			let mut v = Vec::new();
-			for (li, level) in m.levels.get_levels().iter().enumerate() {
-				for t in &level.tables {
-					v.push((li as u8, std::sync::Arc::clone(t)));
-				}
+		// The manifest read lock is held to the end: clean-up runs under the manifest write lock, so
+		// tables, index, bookkeeping and directory listing are one consistent cut.
+		let m = inner.level_manifest.read()?;
+		w.min_oldest = m.min_oldest_vlog_file_id();
+		let mut tables: Vec<(u8, std::sync::Arc<crate::sstable::table::Table>)> = Vec::new();
+		for (li, level) in m.levels.get_levels().iter().enumerate() {
+			for t in &level.tables {
+				tables.push((li as u8, std::sync::Arc::clone(t)));
 			}
-			v
-		};
+		}
 		for (level, t) in &tables {
 			w.tables.push(VlogTableInfo {
 				id: t.id,
@@ -154,6 +153,7 @@ impl Tree {
 			}
 			w.dir_files.sort_unstable();
 		}
+		drop(m);
 		Ok(w)
 	}
 }
